@@ -1,7 +1,6 @@
 package scen
 
 import (
-	"fmt"
 	"math"
 
 	"verifharness/chain"
@@ -165,7 +164,6 @@ func buildRates(seed int64) (*Scenario, error) {
 	for h := uint32(108); h <= 159; h++ {
 		all = append(all, h)
 	}
-	_ = fmt.Sprint
 	b.Dump(all...) // small chain: record every block of the three eras
 	return b.Finish()
 }
